@@ -146,7 +146,7 @@ def run_nrt(p, v):
     try:
         # spawning a child does not influence anybody else's time; only a
         # tempo change exactly when another clock's routine wakes would
-        m = prog_model.Model(p, interacting={'tempo'}).run()
+        m = prog_model.Model(p, interacting={'tempo', 'etempo'}).run()
     except prog_model.Ambiguous:
         raise Reject()
     if m.simultaneous:
@@ -182,7 +182,7 @@ def run_nrt(p, v):
 def run_rt(case, v):
     p = case['prog']
     try:
-        m = prog_model.Model(p, interacting={'tempo'}).run()
+        m = prog_model.Model(p, interacting={'tempo', 'etempo'}).run()
     except prog_model.Ambiguous:
         raise Reject()
     if m.simultaneous:
